@@ -118,10 +118,12 @@ public:
   public:
     Result();
     Result(int value);
+    Result(long long value);
     Result(double value);
     Result(void *value);
 
-    int as_integer() const;
+    long long as_integer() const;
+    bool fits_int() const;
     double as_real() const;
     void *as_pointer() const;
     bool as_boolean() const;
@@ -129,7 +131,9 @@ public:
 
     ResultType _type;
     union {
-      int _integer;
+      // Integer expressions are evaluated in the widest integer type, as the
+      // preprocessor requires for #if.
+      long long _integer;
       double _real;
       void *_pointer;
     } _u;
